@@ -518,7 +518,8 @@ func runC01(c c01Case) *pbt.Verdict {
 			case "oversize":
 				raw[0].Data = bytes.Repeat([]byte{1}, int(c.MaxReportSz)+1)
 			case "exit":
-				raw[0].ExitCode = 3
+				// the field is an unchecked uint32; the script sees it as a 64-bit status, where -1 means "did not report"
+				raw[0].ExitCode = []uint32{3, 255, 1<<31 - 1, 1 << 31, 1<<32 - 1}[(int(id)+len(block))%5]
 			case "empty":
 				raw = nil
 			}
